@@ -57,6 +57,7 @@ def is_lit(t, val=None):
 def add(a, b):
     if is_lit(a, 0): return b
     if is_lit(b, 0): return a
+    if re.match(r'^\d+$', a) and re.match(r'^\d+$', b): return str(int(a) + int(b))
     return app('+', a, b)
 
 
@@ -135,6 +136,21 @@ class Cell:
         self.v = v
 
 
+class Ref:
+    """pointer to a scalar sub-object: container[key]"""
+
+    def __init__(self, container, key):
+        self.container, self.key = container, key
+
+    @property
+    def v(self):
+        return self.container[self.key]
+
+    @v.setter
+    def v(self, val):
+        self.container[self.key] = val
+
+
 class ReturnSignal(Exception):
     pass
 
@@ -166,6 +182,9 @@ class SymExec:
             for fn, ft in rec['fields']:
                 if ft[0] in ('mutex',):
                     continue
+                if ft[0] in ('vector', 'list', 'map', 'queue', 'string'):
+                    d[fn] = None           # containers have no meaning over the reals (back end A covers them)
+                    continue
                 d[fn] = self.fresh_value(ft, name + '_' + fn)
             return d
         if t[0] == 'mutex':
@@ -183,6 +202,9 @@ class SymExec:
             for b in rec['bases']:
                 d['base'] = self.default_value(('struct', b))
             for fn, ft in rec['fields']:
+                if ft[0] in ('vector', 'list', 'map', 'queue', 'string'):
+                    d[fn] = None
+                    continue
                 d[fn] = self.default_value(ft) if ft[0] != 'mutex' else {'held': '0'}
             return d
         if t[0] == 'mutex':
@@ -194,6 +216,9 @@ class SymExec:
     # -- calling a function -----------------------------------------------------------------
     def call(self, cname, args, pc='true'):
         """args: list of values (scalars: terms; aggregates by pointer: Cell). returns value"""
+        if cname.startswith(('stdvec_', 'stdlist_', 'stdmap_')):
+            self.B.note('container model call %s ignored in back end B (containers are back end A\'s business)' % cname)
+            return None
         fn = self.prog.functions.get(cname)
         if fn is None:
             raise ExtractError('emit_smt: function %s not extracted' % cname)
@@ -230,7 +255,7 @@ class Frame:
             return [self.merge(c, x, y) for x, y in zip(a, b)]
         if isinstance(a, dict):
             return {k: self.merge(c, a[k], b[k]) for k in a}
-        if isinstance(a, Cell) or isinstance(b, Cell):
+        if isinstance(a, (Cell, Ref)) or isinstance(b, (Cell, Ref)):
             if a is b:
                 return a
             raise ExtractError('emit_smt: merging distinct pointers')
@@ -322,6 +347,8 @@ class Frame:
                 if c == 'false':
                     break
                 if c != 'true':
+                    if n == 0 and self.B.symbolic_loop is not None:
+                        return self.B.symbolic_loop(self, s, pc)
                     raise ExtractError('emit_smt: loop with a symbolic bound in %s (condition %s)' % (self.fn.cname, c[:80]))
                 pc = self.block(body, pc)
                 pc = self.block(inc, pc)
@@ -372,9 +399,22 @@ class Frame:
             return base, lv[2]
         if k == 'deref':
             p = self.ev(lv[1], pc)
+            if isinstance(p, Ref):
+                return p.container, p.key
             if not isinstance(p, Cell):
                 raise ExtractError('emit_smt: deref of a non-pointer')
             return p, None
+        if k == 'vindex':
+            self.B.note('element of a container is opaque in back end B')
+            return Cell(None), None
+        if k == 'elemx':
+            c, key = self.loc(lv[1], pc)
+            base = c.v if key is None else c[key]
+            if isinstance(base, Cell): base = base.v
+            i = self.ev(lv[2], pc)
+            if not re.match(r'^\d+$', i):
+                raise ExtractError('emit_smt: Eigen coefficient index is symbolic (%s)' % i[:60])
+            return base, int(i)
         raise ExtractError('emit_smt: lvalue kind %r' % (k,))
 
     def load(self, lv, pc):
@@ -413,7 +453,7 @@ class Frame:
                 return num(v)
             if t[0] == 'bool': return 'true' if v else 'false'
             return inum(v)
-        if k in ('var', 'field', 'arrow', 'elem', 'deref'):
+        if k in ('var', 'field', 'arrow', 'elem', 'deref', 'elemx'):
             return self.load(e, pc)
         if k == 'addr':
             c, key = self.loc(e[1], pc)
@@ -425,7 +465,7 @@ class Frame:
             # wrap sub-object in a cell that aliases the storage (lists/dicts are shared by reference)
             if isinstance(v, (list, dict)):
                 return Cell(v)
-            raise ExtractError('emit_smt: address of a scalar sub-object')
+            return Ref(c, key)
         if k == 'cast':
             a = self.ev(e[1], pc)
             ft, tt = e[2], e[3]
@@ -478,6 +518,8 @@ class Frame:
             if op == '%':
                 B.oblige('mod.nonzero', lnot(app('=', b, '0')), pc)
                 return ite(app('>=', a, '0'), app('mod', a, b), neg(app('mod', neg(a), b)))
+            if op in ('<', '>', '<=', '>=') and re.match(r'^\d+$', a) and re.match(r'^\d+$', b):
+                return 'true' if eval('%s %s %s' % (a, op, b)) else 'false'
             if op in ('<', '>', '<=', '>='):
                 return app(op, a, b)
             if op == '==': return app('=', a, b)
@@ -523,6 +565,8 @@ class Builder:
         self.axioms_used = set()
         self.sx = SymExec(self)
         self.loop_handler = self.default_loop
+        self.loop_records = []
+        self.symbolic_loop = None     # handler for `for` loops whose bound is not a compile-time constant
         self.libm_terms = {}     # (fname, args tuple) -> True
         self.functions_called = set()
         self.nfresh = 0
@@ -582,8 +626,6 @@ class Builder:
             self.oblige('log.arg_positive', app('>', av[0], '0.0'), pc)
         if name in ('asin', 'acos'):
             self.oblige(name + '.arg_in_unit_interval', land(app('<=', '(- 1.0)', av[0]), app('<=', av[0], '1.0')), pc)
-        if name == 'atan2':
-            self.oblige('atan2.not_both_zero', lnot(land(app('=', av[0], '0.0'), app('=', av[1], '0.0'))), pc)
         if name == 'pow':
             # integer literal exponents are expanded; otherwise x > 0 required
             m = re.match(r'^(\d+)\.0$', av[1])
@@ -617,15 +659,76 @@ class Builder:
         self.functions_called.add(cname)
         return self.sx.call(cname, [a if not isinstance(a, (list, dict)) else Cell(a) for a in args])
 
+    @staticmethod
+    def congruence(fn, args1, args2):
+        """instance of function congruence (valid in first-order logic with equality): equal arguments, equal results"""
+        return implies(land(*[app('=', x, y) for x, y in zip(args1, args2)]), app('=', app(fn, *args1), app(fn, *args2)))
+
+    def make(self, tname, **fields):
+        """a struct value with the given field terms (fields of base classes are found through the 'base' chain)"""
+        v = self.sx.default_value(('struct', tname))
+        for k, t in fields.items():
+            d = v
+            while k not in d:
+                if 'base' not in d:
+                    raise ExtractError('emit_smt: no field %s in %s' % (k, tname))
+                d = d['base']
+            d[k] = t
+        return v
+
+    @staticmethod
+    def get(v, k):
+        d = v
+        while k not in d:
+            d = d['base']
+        return d[k]
+
     def struct(self, tname, name):
         return self.sx.fresh_value(('struct', tname), name)
+
+    def fixed_point_loop(self, frame, s, pc):
+        """partial-correctness summary of `while (cond) body` for fixed-point iterations:
+        the variables assigned in the body are havocked to fresh symbols (an arbitrary iterate), the body is executed once,
+        and the state after it is the loop's exit state.  The record (pre-iterate symbols, post terms, loop condition after
+        the body) is appended to self.loop_records; the spec decides which idealised exit fact to assume (e.g. iterate = predecessor)."""
+        assigned = set()
+
+        def scan(stmts):
+            for st in stmts:
+                if st[0] == 'assign' and st[1][0] == 'var':
+                    assigned.add(st[1][1])
+                elif st[0] in ('if',):
+                    scan(st[2]); scan(st[3])
+                elif st[0] == 'block':
+                    scan(st[1])
+                elif st[0] in ('for', 'while'):
+                    scan(st[4] if st[0] == 'for' else st[2])
+        scan(s[2])
+        pre = {}
+        for v in sorted(assigned):
+            if v in frame.env and isinstance(frame.env[v].v, str):
+                sym = self.fresh('it_' + v)
+                pre[v] = sym
+                frame.env[v].v = sym
+        frame.block(s[2], pc)
+        post = {v: frame.env[v].v for v in pre}
+        cond = frame.ev(s[1], pc)
+        self.loop_records.append({'function': frame.fn.cname, 'pre': pre, 'post': post, 'cond_after_body': cond})
+        self.note('while loop in %s summarised as a fixed-point iteration (partial correctness; termination and tolerance not decided)' % frame.fn.cname)
+        return pc
 
     def default_loop(self, frame, s, pc):
         raise ExtractError('emit_smt: while loop in %s needs a loop handler (fixed-point summary)' % frame.fn.cname)
 
     # -- VCs ------------------------------------------------------------------------------------
-    def vc(self, name, goal, assume=(), bounded=None, timeout=None, functions=()):
-        self.vcs.append({'name': name, 'goal': goal, 'assume': list(assume), 'bounded': bounded, 'timeout': timeout,
+    def vc(self, name, goal, assume=(), bounded=None, timeout=None, functions=(), subst=()):
+        """subst: [(term, symbol)] -- generalisation step: every occurrence of `term` in goal and assumptions is replaced by the
+        fresh symbol (sound: the VC with the symbol universally quantified implies the VC with the term); facts about the term
+        that the proof needs are passed as assumptions and are themselves proved by separate lemma VCs (without subst)."""
+        for term, sym in sorted(subst, key=lambda p: -len(p[0])):
+            goal = goal.replace(term, sym)
+            assume = [a.replace(term, sym) for a in assume]
+        self.vcs.append({'name': name, 'goal': goal, 'assume': list(assume), 'bounded': bounded, 'timeout': timeout, 'subst': list(subst),
                          'functions': sorted(set(functions) | set(self.functions_called))})
 
     def domain_vcs(self, prefix, assume=(), skip=()):
@@ -643,15 +746,22 @@ class Builder:
             self.vc('%s.domain.%s.%d' % (prefix, kind, k), implies(pc, cond), assume)
 
     # -- axioms (ground instances) -----------------------------------------------------------------
-    def auto_axioms(self, text):
+    def auto_axioms(self, text, subst=()):
         """ground instances, for every libm term occurring in `text`, of the schemas that need no side condition"""
         out = []
         import axioms_libm
+        order = sorted(subst, key=lambda p: -len(p[0]))
+
+        def sub_all(t):
+            for term, sym in order:
+                t = t.replace(term, sym)
+            return t
         for (fn, args) in list(self.libm_terms):
-            t = app(fn, *args)
+            args2 = tuple(sub_all(a) for a in args)
+            t = app(fn, *args2)
             if t not in text:
                 continue
-            out += axioms_libm.auto(fn, args, self)
+            out += [sub_all(x) for x in axioms_libm.auto(fn, args2, self)]
         return out
 
     def axiom(self, schema, *args):
@@ -666,7 +776,7 @@ class Builder:
         ax = []
         for _ in range(3):
             txt = ' '.join(body + ax)
-            new = [a for a in self.auto_axioms(txt) if a not in ax]
+            new = [a for a in self.auto_axioms(txt, vc.get('subst', ())) if a not in ax]
             if not new:
                 break
             ax += new
@@ -698,18 +808,82 @@ def run_solver(cmd, path, timeout):
         out = r.stdout
     except subprocess.TimeoutExpired:
         return 'timeout', '', time.time() - t0
+    return classify_out(out), out, time.time() - t0
+
+
+def classify_out(out):
     first = out.strip().split('\n')[0].strip() if out.strip() else ''
-    if first in ('sat', 'unsat', 'unknown'):
-        return first, out, time.time() - t0
-    return 'error', out[:500], time.time() - t0
+    return first if first in ('sat', 'unsat', 'unknown') else 'error'
+
+
+def run_portfolio(path, timeout, grace=4.0):
+    """all solvers in parallel; once one gives a definite answer the others get `grace` more seconds (to detect disagreement)"""
+    procs = {}
+    t0 = time.time()
+    for nm, cmd in SOLVERS:
+        procs[nm] = subprocess.Popen(['bash', '-c', 'ulimit -v 8000000; exec "$@"', 'sh'] + cmd + [path], stdout=subprocess.PIPE, stderr=subprocess.STDOUT, text=True)
+    results = {}
+    deadline = t0 + timeout
+    while procs and time.time() < deadline:
+        for nm in list(procs):
+            p = procs[nm]
+            if p.poll() is not None:
+                out = p.stdout.read()
+                results[nm] = (classify_out(out), out, time.time() - t0)
+                del procs[nm]
+                if results[nm][0] in ('sat', 'unsat'):
+                    deadline = min(deadline, time.time() + grace)
+        time.sleep(0.02)
+    for nm, p in procs.items():
+        p.kill()
+        try:
+            p.wait(timeout=5)
+        except Exception:
+            pass
+        results[nm] = ('timeout', '', time.time() - t0)
+    return results
 
 
 def parse_model(out):
+    """values of the nullary Real/Int/Bool symbols of a solver model (s-expression scan)"""
     vals = {}
-    for m in re.finditer(r'\(define-fun\s+(\S+)\s+\(\)\s+(Real|Int|Bool)\s+([^\n]*(?:\n\s+[^\n(][^\n]*)?)', out):
-        v = m.group(3).strip()
-        v = v[:-1].strip() if v.endswith(')') else v
-        vals[m.group(1)] = v
+    toks = re.findall(r'\(|\)|[^\s()]+', out)
+    i = 0
+
+    def sexp(j):
+        if toks[j] == '(':
+            lst = []
+            j += 1
+            while toks[j] != ')':
+                e, j = sexp(j)
+                lst.append(e)
+            return lst, j + 1
+        return toks[j], j + 1
+
+    def render(e):
+        if isinstance(e, list):
+            if len(e) == 2 and e[0] == '-':
+                return '-' + render(e[1])
+            if len(e) == 3 and e[0] == '/':
+                return render(e[1]) + '/' + render(e[2])
+            return '(' + ' '.join(render(x) for x in e) + ')'
+        return e
+    try:
+        while i < len(toks):
+            if toks[i] == '(':
+                e, i = sexp(i)
+                stack = [e]
+                while stack:
+                    x = stack.pop()
+                    if isinstance(x, list):
+                        if len(x) == 5 and x[0] == 'define-fun' and x[2] == [] and x[3] in ('Real', 'Int', 'Bool'):
+                            vals[x[1]] = render(x[4])
+                        else:
+                            stack.extend(y for y in x if isinstance(y, list))
+            else:
+                i += 1
+    except IndexError:
+        pass
     return vals
 
 
@@ -718,15 +892,18 @@ def decide(vc, text, work, tier):
     path = os.path.join(work, 'vc_%s.smt2' % hashlib.sha1(vc['name'].encode()).hexdigest()[:12])
     open(path, 'w').write(text)
     timeout = vc.get('timeout') or (60 if tier == 'quick' else 300)
-    results = {}
     t0 = time.time()
-    with cf.ThreadPoolExecutor(max_workers=len(SOLVERS)) as ex:
-        futs = {ex.submit(run_solver, cmd, path, timeout): nm for nm, cmd in SOLVERS}
-        for fu in cf.as_completed(futs):
-            nm = futs[fu]
-            st, out, dt = fu.result()
-            results[nm] = (st, out, dt)
+    results = run_portfolio(path, timeout)
     sts = {nm: r[0] for nm, r in results.items()}
+    if 'unsat' in sts.values():
+        # vacuity guard: the assumptions and axiom instances alone must not be refutable
+        vtext = text.replace('(assert (not %s))' % vc['goal'], '; goal removed: consistency check of the assumptions')
+        vpath = path.replace('.smt2', '.vacuity.smt2')
+        open(vpath, 'w').write(vtext)
+        vres = run_portfolio(vpath, 10 if tier == 'quick' else 30, grace=1.0)
+        if any(r[0] == 'unsat' for r in vres.values()):
+            return {'name': vc['name'], 'goal': vc['goal'][:800], 'bounded': vc.get('bounded'), 'functions': vc.get('functions', []), 'status': 'vacuous',
+                    'solver_results': {nm: '%s (%.2fs)' % (r[0], r[2]) for nm, r in vres.items()}, 'seconds': time.time() - t0, 'smt_file': vpath}
     res = {'name': vc['name'], 'goal': vc['goal'][:800], 'bounded': vc.get('bounded'), 'functions': vc.get('functions', []),
            'solver_results': {nm: '%s (%.2fs)' % (r[0], r[2]) for nm, r in results.items()}, 'seconds': time.time() - t0, 'smt_file': path}
     if 'unsat' in sts.values() and 'sat' in sts.values():
@@ -774,6 +951,8 @@ def run_property(pid, tier, work, ncpu):
             print('[%s] B %s: %s %s' % (pid, res['name'], res['status'], res['solver_results']), file=sys.stderr, flush=True)
             if res['status'] == 'disagreement':
                 no_verdict.append('solver disagreement on %s: %s' % (res['name'], res['solver_results']))
+            if res['status'] == 'vacuous':
+                no_verdict.append('assumptions of %s are contradictory (vacuous VC): %s' % (res['name'], res['solver_results']))
     B_extraction = {
         'functions': [{'c_name': f.cname, 'qualified_name': f.qual, 'file': f.src_file, 'lines': [f.src_range[2], f.src_range[3]],
                        'sha256_of_source_text': f.sha256} for f in B.prog.functions.values()],
